@@ -1,0 +1,20 @@
+//go:build verif
+
+package mpb
+
+// VerifHook, when set (once, before the first container is created),
+// receives instrumentation events. Only present with the verif build tag.
+var VerifHook func(point string, bar *Bar, a, b int)
+
+func vhook(point string, bar *Bar, a, b int) {
+	if VerifHook != nil {
+		VerifHook(point, bar, a, b)
+	}
+}
+
+func verifErrFlag(err error) int {
+	if err != nil {
+		return 1
+	}
+	return 0
+}
